@@ -11,6 +11,7 @@ import (
 	"os/exec"
 	"strings"
 	"sync"
+	"sync/atomic"
 	"time"
 
 	"golang.org/x/net/publicsuffix"
@@ -194,6 +195,10 @@ var sessBackend = http.HandlerFunc(func(w http.ResponseWriter, r *http.Request) 
 // process (built with -race) so that a fatal runtime error is observed, not suffered.
 func sessionsDriver(a *Args) {
 	res := a.Res
+	if a.Mode == "stress-child" {
+		sessionsStressChild()
+		return
+	}
 	if a.Mode == "burst-child" {
 		sessionsBurstChild()
 		return
@@ -270,6 +275,85 @@ func sessionsDriver(a *Args) {
 		hx.Emit("BurstDone", "ok", ok, "report", kind, "in_repo", inRepo)
 		res.Case(fmt.Sprintf("burst:%d", r), map[string]interface{}{"round": r, "ok": ok})
 	}
+	// tight stress in a child process (plain build, no per-request events): interleavings that need two
+	// requests of different sessions inside the cache lookup within nanoseconds of each other
+	hx.Reset("sess-stress", "sessions-stress")
+	cmd := exec.Command(hx.Bin("vdrive"), "-mode", "stress-child", "-out", os.DevNull, "sessions")
+	cmd.Env = append(os.Environ(), "VERIF_TRACE=")
+	out, err := cmd.CombinedOutput()
+	var sum struct{ Requests, Mixed, Shown, Leaked int }
+	parsed := false
+	for _, ln := range strings.Split(string(out), "\n") {
+		if strings.HasPrefix(ln, "STRESS ") {
+			parsed = json.Unmarshal([]byte(strings.TrimPrefix(ln, "STRESS ")), &sum) == nil
+		}
+	}
+	if err != nil || !parsed {
+		res.Note("stress child failed (%v): %s", err, headOf(out, 1500))
+	}
+	hx.Emit("SessStress", "ok", err == nil && parsed, "requests", sum.Requests, "mixed", sum.Mixed, "session_cookie_shown", sum.Shown, "setcookie_leaked", sum.Leaked)
+	res.Case("stress", map[string]interface{}{"requests": sum.Requests, "mixed": sum.Mixed})
+}
+
+// sessionsStressChild: 8 sessions x 4 goroutines each hammer one shared handler for a fixed number of
+// requests. The backend sets a cookie naming the session's owner once and compares it with the
+// owner header on every later request.
+func sessionsStressChild() {
+	cache := sessions.NewCache(sessCookieName, time.Hour, 100, false)
+	var mixed, shown, leaked, total int64
+	backend := http.HandlerFunc(func(w http.ResponseWriter, r *http.Request) {
+		owner := r.Header.Get("X-Owner")
+		if _, err := r.Cookie(sessCookieName); err == nil {
+			atomic.AddInt64(&shown, 1)
+		}
+		if c, err := r.Cookie("owner"); err != nil {
+			http.SetCookie(w, &http.Cookie{Name: "owner", Value: owner, Path: "/"})
+		} else if c.Value != owner {
+			atomic.AddInt64(&mixed, 1)
+		}
+		w.WriteHeader(200)
+	})
+	h := cache.SessionHandler(backend, nil)
+	const nsess, per, nreq = 8, 4, 12000
+	var wg sync.WaitGroup
+	for k := 0; k < nsess; k++ {
+		owner := fmt.Sprintf("o%d", k)
+		// first request: obtain the session cookie
+		rec := httptest.NewRecorder()
+		req := httptest.NewRequest("GET", "http://h1.example.com/", nil)
+		req.Header.Set("X-Owner", owner)
+		h.ServeHTTP(rec, req)
+		var sc *http.Cookie
+		for _, c := range rec.Result().Cookies() {
+			if c.Name == sessCookieName {
+				sc = c
+			}
+		}
+		if sc == nil {
+			fmt.Println("no session cookie issued")
+			os.Exit(3)
+		}
+		for g := 0; g < per; g++ {
+			wg.Add(1)
+			go func() {
+				defer wg.Done()
+				for i := 0; i < nreq; i++ {
+					rec := httptest.NewRecorder()
+					req := httptest.NewRequest("GET", "http://h1.example.com/", nil)
+					req.Header.Set("X-Owner", owner)
+					req.AddCookie(&http.Cookie{Name: sessCookieName, Value: sc.Value})
+					h.ServeHTTP(rec, req)
+					atomic.AddInt64(&total, 1)
+					if len(rec.Header().Values("Set-Cookie")) > 0 {
+						atomic.AddInt64(&leaked, 1)
+					}
+				}
+			}()
+		}
+	}
+	wg.Wait()
+	b, _ := json.Marshal(map[string]int64{"Requests": total, "Mixed": mixed, "Shown": shown, "Leaked": leaked})
+	fmt.Println("STRESS " + string(b))
 }
 
 // sessionsBurstChild hammers one shared handler from many goroutines: requests of the same and of
